@@ -56,7 +56,7 @@ NS_DICTS = [
 @st.composite
 def cases(draw):
     g = draw(gg.general(inst_props=(RDF_TYPE, RDF_TYPE, RDF_TYPE, "http://ex.org/isA", gg.INST_PROPS[2]),
-                        bnode_classes=True, class_typing=True, quirks=draw(gg.quirk_set(allowed=tuple(gg.QUIRKS) + ("odd_class_names",)))))
+                        bnode_classes=True, class_typing=True, quirks=draw(gg.quirk_set(allowed=tuple(gg.QUIRKS) + ("odd_class_names", "slash_classes")))))
     cfg = draw(gg.switches())
     opt = st.integers(0, 3)
     if draw(opt) == 0:
